@@ -2,7 +2,10 @@
    (mode d = array_list_* API, j = json_object_array_* API; the model is the same) with
    A<e> add, P<i>,<e> put_idx, I<i>,<e> insert_idx, D<i>,<c> del_idx, H<n> shrink, S sort,
    G<i> get_idx, B<e> bsearch, M<k>,<id0> k appends of id0, id0+1, ... (stops at the first
-   refusal); <e> is a decimal id or n (NULL).
+   refusal); S / R sort by the ascending / descending comparator, B<e> / C<e> bsearch by the
+   ascending / descending comparator, V<i>,<v> in-place change of the value of element i (the
+   array is not called).  A lower-case op letter is the same operation (in the implementation:
+   through array_list_* on json_object_get_array(arr)).  <e> is a decimal id or n (NULL).
    Sequences (contents, released ids) are run-length encoded: "e", "e*k" (k copies, k >= 3),
    "e+k" (the k consecutive ids from e, k >= 3), "-" empty.
    Observation per step: "<ret> <length> <size> <released> <contents> <past-end-null>",
@@ -39,20 +42,23 @@ let seq_str (l : z option list) =
   end
 let ids_str l = seq_str (List.rev (List.rev_map (fun x -> Some x) l))
 
-type op = Step of alop | Get of z | Bs of elt | Many of int * z
+type op = Step of alop | Get of z | Bs of cmpsel * elt | Many of int * z
 
 let parse_op s =
   let body = String.sub s 1 (String.length s - 1) in
   let two () = match String.split_on_char ',' body with [a; b] -> (a, b) | _ -> failwith "al args" in
-  match s.[0] with
+  match Char.uppercase_ascii s.[0] with
   | 'A' -> Step (OAdd (parse_elt body))
   | 'P' -> let (i, e) = two () in Step (OPut (z_of_string i, parse_elt e))
   | 'I' -> let (i, e) = two () in Step (OInsert (z_of_string i, parse_elt e))
   | 'D' -> let (i, c) = two () in Step (ODel (z_of_string i, z_of_string c))
   | 'H' -> Step (OShrink (z_of_string body))
-  | 'S' -> Step OSort
+  | 'S' -> Step (OSort Asc)
+  | 'R' -> Step (OSort Desc)
+  | 'V' -> let (i, v) = two () in Step (OSetVal (z_of_string i, z_of_string v))
   | 'G' -> Get (z_of_string body)
-  | 'B' -> Bs (parse_elt body)
+  | 'B' -> Bs (Asc, parse_elt body)
+  | 'C' -> Bs (Desc, parse_elt body)
   | 'M' -> let (k, i) = two () in Many (int_of_string k, z_of_string i)
   | _ -> failwith "al op"
 
@@ -100,8 +106,8 @@ let run line =
              (match al_get !a i with
               | GOk e -> out := obs !a (elt_str e) [] :: !out
               | GUB -> out := "UB" :: !out; ub := true; raise Exit)
-           | Bs k ->
-             (match al_bsearch !a k with
+           | Bs (c, k) ->
+             (match al_bsearch c !a k with
               | Some b -> out := obs !a (if b then "f" else "nf") [] :: !out
               | None -> out := "UB" :: !out; ub := true; raise Exit)) (split_on ';' ops)
        with Exit -> ());
